@@ -299,7 +299,7 @@ macro_rules! kernel_window {
             let acc: bool = $kernel(&b);
             assert!(acc == valid);
             kani::cover!(acc && w[0] >= 0xE0);
-            kani::cover!(!acc && w[0] < 0x80);
+            kani::cover!(!acc);
         }
     };
 }
